@@ -751,6 +751,14 @@ func runChild(res *mon.Result, bin string, idx int, base string) {
 	defer os.RemoveAll(dir)
 	var lastHistory *[]string
 	defer func() {
+		if w := os.Getenv("VERIF_WORK"); w != "" && os.Getenv("VERIF_KEEP_RACE") != "" {
+			files, _ := filepath.Glob(filepath.Join(dir, "relayrace.*"))
+			for _, f := range files {
+				if b, err := os.ReadFile(f); err == nil {
+					os.WriteFile(filepath.Join(w, fmt.Sprintf("child%d-%s", idx, filepath.Base(f))), b, 0644)
+				}
+			}
+		}
 		sigs, ex, other := mapRaces(dir)
 		res.Count("relay_race_reports_not_on_maps", other)
 		seen := map[string]bool{}
